@@ -38,8 +38,9 @@ func nKids(n Node, k string) []Node {
 	return out
 }
 
-var tokRune = map[string]string{"SP": " ", "TAB": "\t", "U2": "é", "U3": "€", "U4": "😀"}
-var runeTok = map[rune]string{' ': "SP", '\t': "TAB", 'é': "U2", '€': "U3", '😀': "U4"}
+// LF / NB (U+00A0) / EM (U+2003) are Unicode white space but NOT blanks of the rendering grammar (only space and tab are condensed)
+var tokRune = map[string]string{"SP": " ", "TAB": "\t", "U2": "é", "U3": "€", "U4": "😀", "LF": "\n", "NB": "\u00a0", "EM": "\u2003"}
+var runeTok = map[rune]string{' ': "SP", '\t': "TAB", 'é': "U2", '€': "U3", '😀': "U4", '\n': "LF", '\u00a0': "NB", '\u2003': "EM"}
 
 func Detok(toks []string) string {
 	var b strings.Builder
@@ -114,6 +115,8 @@ func BuildNode(n Node) any {
 		case "flt":
 			f, _ := strconv.ParseFloat(txt, 64)
 			return f
+		case "tnil": // a typed nil pointer: an element like any other (not nil as an interface value)
+			return (*int)(nil)
 		}
 		return txt
 	case "ptr":
@@ -142,6 +145,12 @@ func BuildNode(n Node) any {
 		return m
 	case "st":
 		a, _ := strconv.Atoi(Detok(nToks(n, "a")))
+		switch nStr(n, "sty") {
+		case "embp":
+			return eqStructP{A: a, C: Detok(nToks(n, "c"))}
+		case "embx":
+			return eqStructX{A: a, C: Detok(nToks(n, "c"))}
+		}
 		return eqStruct{A: a, p: Detok(nToks(n, "p")), C: Detok(nToks(n, "c"))}
 	case "stk":
 		s := BuildStack(n)
@@ -242,6 +251,21 @@ func BuildCond(n Node) stackage.Condition {
 }
 
 
+// eqStructP / eqStructX: two DIFFERENT struct types whose middle field is an embedded struct of an unexported /
+// exported type: comparing one with the other is a mismatch (field visibility), never a panic
+type eqInner struct{ N int }
+type EqOuter struct{ N int }
+type eqStructP struct {
+	A int
+	eqInner
+	C string
+}
+type eqStructX struct {
+	A int
+	EqOuter
+	C string
+}
+
 // eqStruct: a struct leaf with an unexported field between exported ones (C05)
 type eqStruct struct {
 	A int
@@ -288,6 +312,10 @@ func ptrTo(v any, depth int) any {
 		case eqStruct:
 			v = &tv
 		case *eqStruct:
+			v = &tv
+		case eqStructP:
+			v = &tv
+		case eqStructX:
 			v = &tv
 		default:
 			return v
